@@ -231,10 +231,10 @@ def conditions(prop, tier):
             for hy in (False, True):
                 if q and hs != (not hy) and (ncols, nidx) != (1, 1):
                     continue
-                for olo in ((0,) if q else (0, 6, 12, 18)):
+                for olo in ((0,) if q else ((0, 6, 12, 18) if nidx < 3 else (0, 12))):
                     out.append(dict(name='C06.table.c%d-i%d-s%d-h%d-o%d' % (ncols, nidx, hs, hy, olo), fn='table',
                                     fixed=dict(ncols=ncols, nidx=nidx, has_seq=hs, hy=hy), timeout=t,
-                                    extra_pre=['%d <= order < %d' % (olo, olo + (3 if q else 6))],
+                                    extra_pre=['%d <= order < %d' % (olo, olo + (3 if q else 6))] + (['x2 <= 3 and not im2'] if (nidx == 3 and not q) else []),
                                     bounds='table with %d column(s), INDEX of %d entries each an own column / imported object / imported '
                                            'hyphenated object with symbolic IMPLIED flags; SEQUENCE type present: %s; hyphenated column: %s; '
                                            'declaration order of {table,row,columns,SEQUENCE}: symbolic within the shard' % (ncols, nidx, hs, hy)))
